@@ -20,6 +20,7 @@ HARNESS = dict(
     sources=["cxx_c17.cc"],
     repo_sources=[],
     libs=["-lgmpxx", "-lgmp"],
+    flags=["-O0"],   # three floating types x four integer types x 12 style pairs of templates: -O1 triples the compile time
 )
 RULE = ("cases: cmp/cmpv (float,double x 3 styles; operand pairs placed on/next to the tolerance threshold, equal, opposite, zero; epsilons 0, <1, 1, >1), "
         "round/trunc (4 rounding styles x int/long/unsigned targets; arguments at integers, halves, tie boundaries, distance epsilon from an integer), "
@@ -42,11 +43,16 @@ def batches(tier, seed):
         n, parts = 24000, 4
         res.append(dict(args=["--kind", "intall", "--cases", "0", "--tier", tier], tag="int", timeout=300))
         res.append(dict(args=["--kind", "mfall", "--from", str((seed * 7919) % 80000), "--cases", "1500", "--tier", tier], tag="mfrow", timeout=300))
+        # a quarter of the exhaustive minifloat round/trunc table, rotating with the seed
+        res.append(dict(args=["--kind", "mfrall", "--from", str((seed % 4) * 86400), "--cases", "86400", "--tier", tier], tag="mfr", timeout=300))
+        res.append(dict(args=["--kind", "rt", "--seed", str(seed * 1000 + 500), "--cases", "4000", "--tier", tier], tag="rt", timeout=300))
     else:
         n, parts = 600000, 8
         res.append(dict(args=["--kind", "intall", "--cases", "0", "--tier", tier], tag="int", timeout=1800))
         res.append(dict(args=["--kind", "mfall", "--cases", "0", "--tier", tier], tag="mfrow", timeout=3000))
         res.append(dict(args=["--kind", "mfrall", "--cases", "0", "--tier", tier], tag="mfr", timeout=3000))
+        for k in ("rt", "cmp"):
+            res.append(dict(args=["--kind", k, "--seed", str(seed * 1000 + 600), "--cases", "100000", "--tier", tier], tag=k, timeout=3000))
     for i in range(parts):
         res.append(dict(args=["--seed", str(seed * 1000 + i), "--cases", str(n // parts), "--tier", tier], tag="g%d" % i,
                         timeout=(300 if tier == "quick" else 3000)))
@@ -54,4 +60,11 @@ def batches(tier, seed):
 
 
 def search_batches(seed):
-    return [dict(args=["--seed", str(seed * 7919 + 13 + i), "--cases", "60000"], timeout=900) for i in range(3)]
+    """after a broken correspondence / obligation: focused streams first (round/trunc near ties with caller-supplied and default
+    epsilons in all formats, comparisons on the tolerance threshold, integer helpers at the representability boundary), then the mix"""
+    res = [dict(args=["--kind", "mfrall", "--cases", "0", "--tier", "thorough"], timeout=900)]
+    for i, k in enumerate(("rt", "cmp", "int", "cls")):
+        res.append(dict(args=["--kind", k, "--seed", str(seed * 7919 + 13 + i), "--cases", "40000"], timeout=900))
+    res.append(dict(args=["--kind", "intall", "--cases", "0", "--tier", "thorough"], timeout=900))
+    res += [dict(args=["--seed", str(seed * 7919 + 113 + i), "--cases", "60000"], timeout=900) for i in range(2)]
+    return res
